@@ -161,6 +161,15 @@ func Index(opts Options, bopts index.Options) error {
 		}
 	}
 
+	if builder == nil {
+		// The archive has no regular files. Still write an (empty) index for
+		// the repository, like for any other archive.
+		builder, err = index.NewBuilder(bopts)
+		if err != nil {
+			return err
+		}
+	}
+
 	return builder.Finish()
 }
 
